@@ -252,15 +252,32 @@ func VerifC12Regex() {
 		zzverif.Assert(zzverif.Or(flagged, lowered), "compiles-the-pattern-as-given")
 		return
 	}
-	for _, subj := range []string{s, "", "a", "A", " ", "1", "_", "\a", "aA", "A a"} {
-		ref, refErr := nativeRegexpMatch(want, subj)
-		if refErr != nil {
-			return // invalid pattern: an error either way is fine
+	// The engine's counterexample says that for this pattern the implementation does not hand
+	// pattern/subject to the regexp library as specified. Demonstrate a behavioural consequence
+	// on a small neighbourhood: the pattern itself and, for ~*, single letters whose Unicode case
+	// folding differs from lower-casing (s/ſ, k/K (Kelvin sign), i/İ), over subjects that
+	// include those characters.
+	patterns := []string{p}
+	subjects := []string{s, "", "a", "A", " ", "1", "_", "\a", "aA", "A a"}
+	if ci {
+		patterns = append(patterns, "s", "k", "i", "S", "most")
+		subjects = append(subjects, "\u017f", "\u212a", "\u0130", "\u0131", "mo\u017ft")
+	}
+	for _, pat := range patterns {
+		refPat := pat
+		if ci {
+			refPat = "(?i)" + pat
 		}
-		v, err := fn([]octosql.Value{octosql.NewString(subj), octosql.NewString(p)})
-		ok := err == nil && v.TypeID == octosql.TypeIDBoolean && v.Boolean == ref
-		zzverif.Assert(ok, "compiles-the-pattern-as-given")
-		zzverif.Assert(ok, "matches-the-subject-as-given")
+		for _, subj := range subjects {
+			ref, refErr := nativeRegexpMatch(refPat, subj)
+			if refErr != nil {
+				break // invalid pattern: an error either way is fine
+			}
+			v, err := fn([]octosql.Value{octosql.NewString(subj), octosql.NewString(pat)})
+			ok := err == nil && v.TypeID == octosql.TypeIDBoolean && v.Boolean == ref
+			zzverif.Assert(ok, "compiles-the-pattern-as-given")
+			zzverif.Assert(ok, "matches-the-subject-as-given")
+		}
 	}
 }
 
